@@ -5,6 +5,11 @@ ROOT = os.path.dirname(os.path.dirname(os.path.abspath(__file__)))
 
 # id -> (technique, level text, level note, design ref)
 CLAIMED = {
+ "C05": ("dominance / must-not-reach analysis in Selection.set and get (pre-constraints before Node.Field, both veto outcomes bypass it), who-may-call for Node.Field, installation rule for fieldConstraints in Browser.baseConstraints and Selection.Split, constraint-inheritance rule for every Selection literal, loop-shape rule for restriction levels (no accepting return inside the loop over the typedef chain), dispatch-coverage rule of the checker, and the crash-class engine rooted at the restriction checker",
+         "Decides on all paths that a leaf value cannot reach a node's Field callback without the field constraints having run and allowed it, that those constraints are installed on every selection through which writes flow (including the split side of *Into edits), that range/length levels of a typedef chain are conjunctive, and that checking cannot hit a panic or unchecked assertion (incl. min/max). Known findings: leafref/union restrictions are not resolved; multiple patterns are disjunctive (pinned by the suite). Not decided: acceptance of a particular value; enum/bits/identityref membership.",
+         "The crash rule is scoped to package meta, package val and node/field_constraints.go because VTA resolves val.Value calls program-wide.",
+         "DESIGN.md §2 C05"),
+
  "C03": ("SSA/CFG shape rules on node/edit.go and the Selection entry points: strategy dispatch totality, control-dependence of the %w-wrapped fc.ConflictError / fc.NotFoundError on (strategy case × lookup result), dominance of the New=false lookup over every New=true create, parameter-identity of the strategy handed to recursive calls, data-dependence of useDefault, per-entry-point strategy constant and from/to orientation",
          "Decides on all paths of the editor that insert conflicts exactly when the looked-up node exists, update fails with not-found exactly when it does not, nothing is created before it was looked up (or outside insert / upsert-and-absent), the strategy reaches every nested level unchanged and each API method starts the editor with its own strategy and direction. These are necessary conditions of the merge semantics; the merge result itself for a pair of trees and the behaviour of node implementations are not decided.",
          "Error identities are resolved through the fc package's variables and fmt.Errorf verb parsing, not message text; anchors are the editor's function and parameter names (a rename makes the check fail as undecided, not pass).",
